@@ -321,6 +321,28 @@ theorem sortedBy_nil_keys (rows : List Row) : SortedBy (keyCmp []) rows := by
   | nil => simp
   | cons a t ih => exact List.pairwise_cons.2 ⟨fun _ _ => by simp [leBy, keyCmp], ih⟩
 
+/-- a scan node returns the table scan's rows, possibly filtered by a residual (non-range) filter -/
+theorem execPlan_scan_sublist (t : TableMeta) (lay : List RowSet) (cols : List Nat) (f : Expr) (rows : List Row)
+    (h : execPlan t lay (.scan cols f) = .ok rows) :
+    ∃ rows0, tableScan t.primary lay cols (keyRangeOfFilter f) = .ok rows0 ∧ rows.Sublist rows0 := by
+  simp only [execPlan] at h
+  cases hts : tableScan t.primary lay cols (keyRangeOfFilter f) with
+  | panic s =>
+    rw [hts] at h
+    split at h
+    · cases h
+    · split at h <;> simp [Out.map] at h
+  | ok rows0 =>
+    rw [hts] at h
+    refine ⟨rows0, rfl, ?_⟩
+    split at h
+    · cases h; exact List.Sublist.refl _
+    · split at h
+      · simp only [Out.map, Out.ok.injEq] at h
+        subst h
+        exact List.filter_sublist
+      · cases h; exact List.Sublist.refl _
+
 /-- `analyze_order` is sound under the scan contract: every plan's output is sorted by the key
 list the analysis assigns to it. -/
 theorem order_analysis_sound (t : TableMeta) (lay : List RowSet) (hc : ScanContractSorted t lay)
@@ -331,7 +353,9 @@ theorem order_analysis_sound (t : TableMeta) (lay : List RowSet) (hc : ScanContr
     simp only [analyzeOrder]
     split
     · split
-      next c hfind => exact hc cols f rows c h hfind
+      next c hfind =>
+        obtain ⟨rows0, h0, hsub⟩ := execPlan_scan_sublist t lay cols f rows h
+        exact List.Pairwise.sublist hsub (hc cols f rows0 c h0 hfind)
       next => exact sortedBy_nil_keys rows
     · exact sortedBy_nil_keys rows
   | filter c p ih =>
@@ -402,7 +426,7 @@ theorem useless_order_sound_partial (t : TableMeta) (lay : List RowSet) (hc : Sc
   have := sortL_of_sorted _ (keyCmp_laws ks) rows (sortedBy_prefix ks rest rows hs)
   simp [execPlan, h, Out.map, this]
 
-example : isOrderBy ⟨[0], true⟩ [⟨0, false⟩] (.filter (.const (.bool true)) (.scan [0, 1] (.const (.bool true)))) = true := by
+example : isOrderBy { primary := [0], sortedByPk := true } [⟨0, false⟩] (.filter (.const (.bool true)) (.scan [0, 1] (.const (.bool true)))) = true := by
   decide
 
 /-- The planner's scan contract HOLDS for the scan the executor performs (fix d36c2ac), for tables
